@@ -217,10 +217,18 @@ impl Index for HnswIndex {
         // Prepare query vector
         let prepared_query = self.prepare_vector(query);
 
+        // Deleted vectors stay in the graph until the next rebuild: they are filtered out
+        // below, and the request is widened by their number so that k live results remain.
+        let tombstones = self.tombstones.read();
+        let n_tomb = tombstones.len();
+
         // For Manhattan, request more candidates since L2 ordering != L1 ordering.
         // Reranking from a larger candidate set improves recall.
-        let search_k = if is_manhattan { k * 4 } else { k };
-        let raw_results = inner.hnsw.search(&prepared_query, search_k, ef_search);
+        let search_k = (if is_manhattan { k * 4 } else { k }).saturating_add(n_tomb);
+        let raw_results =
+            inner
+                .hnsw
+                .search(&prepared_query, search_k, ef_search.saturating_add(n_tomb));
 
         // Map internal indices to tuple IDs using the stored mapping
         let mut results: Vec<(TupleId, f64)> = if is_manhattan {
@@ -232,6 +240,9 @@ impl Index for HnswIndex {
                     let internal_idx = neighbour.d_id;
                     if internal_idx < inner.index_to_tuple_id.len() {
                         let tuple_id = inner.index_to_tuple_id[internal_idx];
+                        if tombstones.contains(&tuple_id) {
+                            return None;
+                        }
                         // Find the stored vector for this tuple_id
                         if let Some((_, stored_vec)) =
                             vectors.iter().find(|(id, _)| *id == tuple_id)
@@ -253,6 +264,9 @@ impl Index for HnswIndex {
                     let internal_idx = neighbour.d_id;
                     if internal_idx < inner.index_to_tuple_id.len() {
                         let tuple_id = inner.index_to_tuple_id[internal_idx];
+                        if tombstones.contains(&tuple_id) {
+                            return None;
+                        }
                         let dist = self.transform_distance(neighbour.distance);
                         Some((tuple_id, dist))
                     } else {
